@@ -22,7 +22,9 @@ Added for the boolean masks and formula slices of cnvlib/fix.py (round 4, C04):
 * on masks (comparisons and what is built from them) `a | b`, `a & b`, `~a` are `∨`, `∧`, `¬`; `mask |= e` / `mask &= e` update
   a mask local; a function translated with `translate_bool` returns the mask it ends with, as `decide (…)`;
 * `"col" in name` (does the table have that column) is the Boolean parameter `name_has_col`;
-* `name.mean()` is the parameter `name_mean` (like `name.median()`); `e.clip(lo, hi)` is `min hi (max lo e)`;
+* `name.mean()` is the parameter `name_mean` (like `name.median()`; a slice that uses such reductions also emits their
+  names, `<lean name>_reductions`, so that exchanging one reduction for another is visible); `e.clip(lo, hi)` is
+  `min hi (max lo e)`;
 * a SLICE (`emit_slices`) is the right-hand side of the k-th plain assignment `name = <expr>` found anywhere in a function
   (or the unique call of a named method, e.g. `clip`), read with every other local as a free parameter, except locals bound
   exactly once in the function to a numeric literal (inlined) and the names listed in `inline` (earlier slices).  A slice says
@@ -56,13 +58,31 @@ class Fn:
         self.rename = rename or {}
         self.bparams = []            # Boolean parameters (`"col" in table`), in order of first use
         self.boolean = False         # translate_bool: the function returns a mask
+        self.reductions = []         # `.mean()` / `.median()` read as parameters, in order of first use
+        self.base = {}               # parameter -> the Python name it derives from
 
     # -- parameters ------------------------------------------------------------------------------
-    def param(self, name):
+    def param(self, name, base=None):
         name = self.rename.get(name, name)
         if name not in self.params:
             self.params.append(name)
+            self.base[name] = base or name
         return name
+
+    def _ordered(self, names):
+        """order of the parameters of a mask / slice definition: by where the Python name they derive from is defined in
+        the function (position in the signature, else line of its first binding, else 0), then alphabetically -- stable
+        under a reordering of operands and under a renaming of locals"""
+        sig = {a.arg: k for k, a in enumerate(self.fn.args.args)}
+        first = {}
+        for n in ast.walk(self.fn):
+            if isinstance(n, ast.Name) and isinstance(n.ctx, ast.Store):
+                first[n.id] = min(first.get(n.id, (10 ** 9, 0)), (n.lineno, n.col_offset))
+
+        def key(p):
+            b = self.base.get(p, p)
+            return ((0, sig[b], 0) if b in sig else (1,) + first[b] if b in first else (2, 0, 0), p)
+        return sorted(names, key=key)
 
     # -- expressions -----------------------------------------------------------------------------
     def expr(self, e, env):
@@ -83,7 +103,7 @@ class Fn:
             # a table column selected by a string literal: `cnarr["log2"]` is the parameter cnarr_log2
             if isinstance(e.value, ast.Name) and e.value.id not in env and isinstance(e.slice, ast.Constant) \
                     and isinstance(e.slice.value, str) and e.slice.value.isidentifier():
-                return self.param(e.value.id + "_" + e.slice.value)
+                return self.param(e.value.id + "_" + e.slice.value, base=e.value.id)
             raise Untranslatable("subscript " + ast.unparse(e))
         if isinstance(e, ast.UnaryOp):
             if isinstance(e.op, ast.USub):
@@ -124,10 +144,12 @@ class Fn:
                 return f"(if {x} < 0 then -{x} else {x})"
             if isinstance(e.func, ast.Attribute) and e.func.attr == "median" and not args \
                     and isinstance(e.func.value, ast.Name):
-                return self.param(e.func.value.id + "_median")
+                self.reductions.append("median")
+                return self.param(e.func.value.id + "_median", base=e.func.value.id)
             if isinstance(e.func, ast.Attribute) and e.func.attr == "mean" and not args and not e.keywords \
                     and isinstance(e.func.value, ast.Name) and e.func.value.id not in env:
-                return self.param(e.func.value.id + "_mean")
+                self.reductions.append("mean")
+                return self.param(e.func.value.id + "_mean", base=e.func.value.id)
             if isinstance(e.func, ast.Attribute) and e.func.attr == "clip" and len(args) == 2 and not e.keywords:
                 x = self.expr(e.func.value, env)
                 return f"(min {self.expr(args[1], env)} (max {self.expr(args[0], env)} {x}))"
@@ -339,12 +361,12 @@ class Fn:
         body = self.block(list(self.fn.body), {})
         if "MASK:" in body:
             raise Untranslatable("a mask escaped into an arithmetic position")
-        sig = [self.rename.get(a.arg, a.arg) for a in self.fn.args.args]
-        ordered = [p for p in sig if p in self.params] + [p for p in self.params if p not in sig]
-        bs = f"({' '.join(self.bparams)} : Bool) " if self.bparams else ""
+        ordered = self._ordered(self.params)
+        bord = sorted(self.bparams)
+        bs = f"({' '.join(bord)} : Bool) " if bord else ""
         rs = f"({' '.join(ordered)} : Rat) " if ordered else ""
         doc = f"/-- {comment} -/\n" if comment else ""
-        return doc + f"def {lean_name} {bs}{rs}: Bool :=\n  decide {body}", self.bparams + ordered
+        return doc + f"def {lean_name} {bs}{rs}: Bool :=\n  decide {body}", bord + ordered
 
     def translate_slice(self, lean_name, target, inline=None, comment=None):
         """the formula of one statement (see the reading rules at the top of the file)"""
@@ -375,9 +397,13 @@ class Fn:
         body = self.expr(node, env)
         if "MASK:" in body:
             raise Untranslatable("a mask escaped into an arithmetic position")
+        self.params = self._ordered(self.params)
         ps = " ".join(self.params)
         head = f"def {lean_name} ({ps} : Rat) : Rat :=\n  {body}" if self.params else f"def {lean_name} : Rat :=\n  {body}"
         doc = f"/-- {comment} -/\n" if comment else ""
+        if self.reductions:
+            # which reductions over the column the formula uses (they are parameters of the definition)
+            head += f"\ndef {lean_name}_reductions : List String := [" + ", ".join(f'"{r}"' for r in self.reductions) + "]"
         return doc + head, list(self.params)
 
 
